@@ -203,7 +203,8 @@ Definition sc_relabel_inplace (label_attr : string) (s : hg) : res :=
 
 Definition sc_cleanup (iso conn relabel : bool) (s : hg) : res :=
   bind (if iso then ok s else sc_remove_nodes_from (isolates s) s)
-  (fun s1 => bind (if conn then sc_largest_connected_inplace s1 else ok s1)
+  (fun s1 => bind (if conn && negb (match h_node s1 with [] => true | _ => false end)
+                   then sc_largest_connected_inplace s1 else ok s1)
   (fun s2 => if relabel then sc_relabel_inplace "label" s2 else ok s2)).
 
 Definition warn_more (r : res) : res := match r with (s, o, w) => (s, o, S w) end.
